@@ -1,0 +1,55 @@
+//go:build verif
+
+// Contracts for package server, checked by /verif/govc (contract-based deductive verification).
+// This file contains comments only; it is compiled only under the build tag "verif".
+
+package server
+
+// ---------------------------------------------------------------------------------------------
+// Environment contracts (ASSUMED)
+
+//@ iface server.ModbusHandler.Handle(ctx context.Context, received packet.Request) (resp packet.Response, err error)
+//@   modifies nothing
+//@   ensures err == nil ==> resp != nil
+//@   ghostset handled := old(handled) + 1
+//@   ghostset lastHandleErr := err
+
+//@ iface packet.Response.Bytes() (res []byte)
+//@   modifies nothing
+//@   ensures len(res) >= 1 && len(res) <= 260
+
+// ---------------------------------------------------------------------------------------------
+// modbus.go: the per-connection assembler
+
+//@ func (m *ModbusTCPAssembler) handle(ctx context.Context, frame []byte) (res []byte)
+//@   requires m != nil && m.Handler != nil && len(frame) >= 9 && hdrWF(frame) && supportedFC(frame[7])
+//@   safety[C10,C16]
+//@   modifies[C16] nothing
+//@   modifies handled, lastHandleErr
+//@   fresh[C16] res
+//@   ensures[C15,C16] len(res) >= 1 && len(res) <= 260 && handled >= old(handled) && handled <= old(handled) + 1
+//@   ensures[C16] handled > old(handled) && lastHandleErr != nil ==> isException(res) && exceptionFor(res, frame)
+//@   ensures[C16] handled == old(handled) ==> isException(res) && exceptionFor(res, frame) && res[8] == 3
+
+//@ func (m *ModbusTCPAssembler) ReceiveRead(ctx context.Context, received []byte, bytesRead int) (response []byte, closeConnection bool)
+//@   requires m != nil && m.Handler != nil && buflen(m.received) <= 70000 && len(received) <= 70000
+//@   safety[C10,C15,C16]
+//@   modifies[C15] nothing
+//@   modifies m.received, handled, lastHandleErr
+//@   ensures[C15] !closeConnection
+//@   ensures[C15.wait] catLen(m, received) < 8 || (catHeader(m, received) && catLen(m, received) < 6 + catLenField(m, received)) ==> isnil(response) && handled == old(handled) && buflen(m.received) == catLen(m, received)
+//@   ensures[C15.wait] catLen(m, received) < 8 || (catHeader(m, received) && catLen(m, received) < 6 + catLenField(m, received)) ==> forall k in 0..catLen(m, received) :: bufbyte(m.received, k) == cat(m, received, k)
+//@   ensures[C15.once] catOneFrame(m, received) ==> buflen(m.received) == 0 && !isnil(response) && handled <= old(handled) + 1
+//@   ensures[C15.once,C16] catOneFrame(m, received) && !supportedFC(cat(m, received, 7)) && cat(m, received, 7) < 128 ==> replyTo(m, received, response) && response[8] == 1 && handled == old(handled)
+//@   ensures[C16] catOneFrame(m, received) && supportedFC(cat(m, received, 7)) && (handled == old(handled) || lastHandleErr != nil) ==> replyTo(m, received, response)
+//@   ensures[C16] catOneFrame(m, received) && supportedFC(cat(m, received, 7)) && handled == old(handled) ==> response[8] == 3
+//@   loop 0
+//@     modifies m.received, handled, lastHandleErr, response
+//@     invariant 0 <= buflen(m.received) && buflen(m.received) <= catLen(m, received) && handled >= old(handled)
+//@     invariant forall k in 0..buflen(m.received) :: bufbyte(m.received, k) == cat(m, received, catLen(m, received) - buflen(m.received) + k)
+//@     invariant buflen(m.received) == catLen(m, received) ==> isnil(response) && handled == old(handled)
+//@     invariant catLen(m, received) < 8 || (catHeader(m, received) && catLen(m, received) < 6 + catLenField(m, received)) ==> buflen(m.received) == catLen(m, received)
+//@     invariant catOneFrame(m, received) && buflen(m.received) < catLen(m, received) ==> buflen(m.received) == 0 && !isnil(response) && handled <= old(handled) + 1
+//@     invariant catOneFrame(m, received) && buflen(m.received) < catLen(m, received) && !supportedFC(cat(m, received, 7)) && cat(m, received, 7) < 128 ==> replyTo(m, received, response) && response[8] == 1 && handled == old(handled)
+//@     invariant catOneFrame(m, received) && buflen(m.received) < catLen(m, received) && supportedFC(cat(m, received, 7)) && (handled == old(handled) || lastHandleErr != nil) ==> replyTo(m, received, response)
+//@     invariant catOneFrame(m, received) && buflen(m.received) < catLen(m, received) && supportedFC(cat(m, received, 7)) && handled == old(handled) ==> response[8] == 3
